@@ -13,7 +13,7 @@ from .c16 import SOILS15
 
 PID = "C18"
 LEVEL = "model_checking"
-WITNESSES = ["deepened_profile", "not_deepened", "layered_soil", "texture_soil", "depth_interpolation", "thick_compartments_only", "non_uniform_thickness", "soil_object_reused", "independent_layer_map", "water_table_with_percentage_request"]
+WITNESSES = ["season_restart_checked", "deepened_profile", "not_deepened", "layered_soil", "texture_soil", "depth_interpolation", "thick_compartments_only", "non_uniform_thickness", "soil_object_reused", "independent_layer_map", "water_table_with_percentage_request"]
 NONTRIVIAL = ["deepened_profile", "layered_soil", "texture_soil", "depth_interpolation", "thick_compartments_only", "non_uniform_thickness", "soil_object_reused"]
 
 ZMAX = [0.5, 0.6, 1.0, 1.3, 1.5, 1.7, 1.8, 2.0, 2.3, 3.0]
@@ -130,6 +130,11 @@ def scenarios(tier, seed=0):
                         if q and (ZMAX.index(z) if z in ZMAX else 0) % 2 and gw == 2.6:
                             continue
                         yield {"soil": sn, "dz": dz, "zmax": z, "iwc": kind, "gw": gw}
+    # the requested content is what every later season starts from (off-season not simulated), whatever the field management
+    for sn in ("SandyLoam", "c2", "c3", "Paddy"):
+        for kind in ("PctLayer", "NumDepth", "PropLayer"):
+            for fm in ("none", "bunds200", "mulch", "bunds_mulch"):
+                yield {"soil": sn, "dz": "d12", "zmax": 1.0, "iwc": kind, "restart": fm}
     # a Soil object that an earlier model (with a shallower-rooted crop) has already initialised
     for si, (sn, ss) in enumerate(soils.items()):
         if ss["type"] == "ac_TunisLocal" or (q and si % 3):
@@ -158,7 +163,11 @@ def run(scn):
     ss["dz"] = A.DZ[scn["dz"]] if ss["type"] != "ac_TunisLocal" else None
     ss.setdefault("kw", {})
     nl = S.soil_nlayers(ss)
-    spec = A.to_spec(A._b(crop="maize.2", win="w1s", word="normal"))
+    if scn.get("restart"):
+        # three seasons with the off-season skipped: the model re-applies the requested initial content on every planting day
+        spec = A.to_spec(A._b(crop="maize.2", win={"pre": 0, "seasons": 3}, word="wet", field=scn["restart"], irr="smt"))
+    else:
+        spec = A.to_spec(A._b(crop="maize.2", win="w1s", word="normal"))
     spec["soil"] = ss
     spec["crop"]["kw"] = {"Zmax": scn["zmax"], "Zmin": min(0.3, scn["zmax"])}
     spec["iwc"] = iwc_spec(scn["iwc"], nl)
@@ -318,6 +327,33 @@ def run(scn):
     if th0.shape != exp.shape or not np.allclose(th0, exp, atol=1e-9):
         i = int(np.argmax(np.abs(th0 - exp))) if th0.shape == exp.shape else -1
         bad("initial-water-content-as-requested", {"comp": i, "th": float(th0[i]) if i >= 0 else None, "centre": float(mid[i]) if i >= 0 else None}, {"expected": float(exp[i]) if i >= 0 else None}, kind=kind)
+        return res
+    if scn.get("restart"):
+        # step through the run: whenever the season counter moves on (the state has just been reset for the next planting day and that
+        # day has not been simulated yet) the water content must again be the requested one
+        try:
+            with watchdog(120):
+                last = int(m._clock_struct.season_counter)
+                for _ in range(5000):
+                    m.run_model(num_steps=1, initialize_model=False)
+                    res["transitions"] += 1
+                    if m._clock_struct.model_is_finished:
+                        break
+                    now = int(m._clock_struct.season_counter)
+                    if now != last:
+                        last = now
+                        hit("season_restart_checked")
+                        th1 = np.asarray(m._init_cond.th, dtype=float)
+                        if th1.shape != exp.shape or not np.allclose(th1, exp, atol=1e-9):
+                            i = int(np.argmax(np.abs(th1 - exp))) if th1.shape == exp.shape else -1
+                            bad("initial-water-content-as-requested", {"at_the_start_of_season": now + 1, "comp": i, "th": float(th1[i]) if i >= 0 else None}, {"expected": float(exp[i]) if i >= 0 else None},
+                                kind=kind, restart=True)
+                            break
+        except Timeout:
+            res["notes"].append("restart stepping timed out")
+        except Exception as e:  # noqa: BLE001
+            d = describe_exception(e)
+            res["aborted"] = d
     return res
 
 
